@@ -267,6 +267,11 @@ pub fn leaves() -> Vec<Leaf> {
         leaf("decl_duration_float", Stmt::Decl { konst: false, ty: Ty::plain("duration"), name: s("v30"), init: Some(Expr::Timing(s("2.5"), true, "µs")) }),
         leaf("for_set_repeat", Stmt::For { ty: Ty::plain("int"), var: s("i9"), iter: ForIter::Set(vec![int(1), int(1), int(2)]), body: Body::block(vec![]) }),
         leaf("for_set_ids", Stmt::For { ty: Ty::plain("int"), var: s("i8"), iter: ForIter::Set(vec![id("a"), id("a")]), body: Body::single(Stmt::Assign { target: Operand::Id(s("b")), op: None, value: int(7) }) }),
+        leaf("if_empty_else", Stmt::If { cond: bin(BinOp::Eq, id("a"), int(7)), then: Body::block(vec![Stmt::Assign { target: Operand::Id(s("a")), op: None, value: int(8) }]), els: Some(Body::block(vec![])) }),
+        leaf("if_empty_then", Stmt::If { cond: bin(BinOp::Eq, id("a"), int(7)), then: Body::block(vec![]), els: Some(Body::single(Stmt::Assign { target: Operand::Id(s("a")), op: None, value: int(9) })) }),
+        leaf("if_both_empty", Stmt::If { cond: bin(BinOp::Eq, id("a"), int(7)), then: Body::block(vec![]), els: Some(Body::block(vec![])) }),
+        leaf("while_empty", Stmt::While { cond: bin(BinOp::Eq, id("a"), int(7)), body: Body::block(vec![]) }),
+        leaf("switch_empty_case", Stmt::Switch { control: id("a"), cases: vec![(vec![int(1)], vec![]), (vec![int(2), int(3)], vec![Stmt::Break])], default: Some(vec![]) }),
         leaf("break", Stmt::Break),
         leaf("continue", Stmt::Continue),
         leaf("end", Stmt::End),
